@@ -225,9 +225,17 @@ func (x *Exec) applyContract(f *frame, n *node, c *Contract, callee *ssa.Functio
 		if _, isIface := v.T.Underlying().(*types.Interface); isIface && c.Trusted {
 			// values produced by dependencies have dynamic types from outside the module
 			x.assume(TTrue, Lt(App("dyntype", SInt, v.C[0]), Num(0)), "external dynamic type")
+			if strings.HasPrefix(c.Key, "mqtt.Persistence.") {
+				x.assume(TTrue, Implies(Ne(v.C[0], Num(0)), App("perr", SBool, v.C[0])), "errors of the Persistence are persistence errors")
+			} else {
+				x.assume(TTrue, Not(App("perr", SBool, v.C[0])), "other dependencies do not return persistence errors")
+			}
 			x.assume(TTrue, Not(App("pkgerr", SBool, v.C[0])), "errors from dependencies are not the package's sentinels")
 			tb := BVar("t?fe", SInt)
 			x.assumeNeed("Is", Forall([]*Term{tb}, Implies(App("pkgerr", SBool, tb), Not(App("Is", SBool, v.C[0], tb))), App("Is", SBool, v.C[0], tb)))
+			// ... and contain no value of a module type in their chain
+			td := BVar("t?fa", SInt)
+			x.assumeNeed("AsT", Forall([]*Term{td}, Implies(Gt(td, Num(0)), Not(App("AsT", SBool, v.C[0], td))), App("AsT", SBool, v.C[0], td)))
 		}
 		res = append(res, v)
 	}
@@ -1037,7 +1045,17 @@ func (x *Exec) newError(st *State, wraps []*Term, kind string) *Term {
 	h := Fresh("err", SInt)
 	x.assume(st.pc, Eq(h, r), "fresh error")
 	x.assume(st.pc, Eq(App("dyntype", SInt, h), Num(-int64(len(kind)))), "fresh error")
+	x.assume(st.pc, Not(App("pkgerr", SBool, h)), "fresh error")
+	{
+		// an error is a persistence error iff it is, or wraps, one returned by the Persistence
+		var ws []*Term
+		for _, w := range wraps {
+			ws = append(ws, And(Ne(w, Num(0)), App("perr", SBool, w)))
+		}
+		x.assume(st.pc, Eq(App("perr", SBool, h), Or(ws...)), "fresh error")
+	}
 	x.assumeNeedPC(st.pc, "Is", isAxiomAt(h, wraps))
+	x.assumeNeedPC(st.pc, "AsT", asAxiom(h, wraps))
 	return h
 }
 
@@ -1088,7 +1106,7 @@ func (f *frame) intrinsic(key string, cc *ssa.CallCommon, args []Value, n *node,
 		tp := x.ptrOf(x.unboxPointer(args[1], cc.Args[1]))
 		tt := pointee(tp)
 		tn := typeName(tt)
-		ok := And(Ne(e, Num(0)), App("As."+tn, SBool, e))
+		ok := And(Ne(e, Num(0)), App("AsT", SBool, e, Num(typeID(tt))))
 		comps := Flatten(tt)
 		val := Value{T: tt, C: make([]*Term, len(comps))}
 		for k, c := range comps {
@@ -1248,4 +1266,15 @@ func (x *Exec) frameObligations(kind string, f *frame, entry, hv *State, sc *spe
 		}
 		x.oblige(kind, nil, out.pc, Forall([]*Term{r}, goal), f.fn.Pos(), "unchanged outside the modifies clause: "+name)
 	}
+}
+
+// asAxiom: an error made by errors.New / fmt.Errorf / errors.Join is itself of a foreign
+// type; errors.As finds a module type in it exactly when it finds it in a wrapped error.
+func asAxiom(h *Term, wraps []*Term) *Term {
+	t := BVar("t?as", SInt)
+	var rhs []*Term
+	for _, w := range wraps {
+		rhs = append(rhs, And(Ne(w, Num(0)), App("AsT", SBool, w, t)))
+	}
+	return Forall([]*Term{t}, Implies(Gt(t, Num(0)), Eq(App("AsT", SBool, h, t), Or(rhs...))), App("AsT", SBool, h, t))
 }
